@@ -4,7 +4,7 @@ import random
 from .model import RANKS, is_halfop
 
 NICKS = ["al", "bo", "cy", "di", "ed", "fy", "root", "adm", "Al"]
-USERS = {"Al": "alcap", "Root": "rtcap", "al": "al", "bo": "bob", "cy": "cy", "di": "di", "ed": "ed", "fy": "fy", "root": "rt",
+USERS = {"Al": "alcap", "Root": "rtcap", "al": "al", "bo": "bob", "cy": "cy", "di": "cy", "ed": "ed", "fy": "fy", "root": "rt",
          "adm": "adm"}
 CHANS = ["#x", "#y", "#z", "&w"]
 KEYS = ["k1", "key2", "x"]
